@@ -249,6 +249,87 @@ Qed.
 Lemma flatten_nonempty ls : Forall (fun t => t <> []) (flatten ls).
 Proof. apply Forall_forall. intros x Hx. apply flatten_In in Hx. tauto. Qed.
 
+(* ------------------------------------------------------------------ splitTagList *)
+Fixpoint join_comma (ps : list bytes) : bytes :=
+  match ps with
+  | [] => []
+  | [p] => p
+  | p :: r => p ++ 44%N :: join_comma r
+  end.
+
+Lemma split_comma_nonnil s : split_comma s <> [].
+Proof.
+  induction s as [|c r IH]; cbn [split_comma]; [discriminate|].
+  destruct (N.eqb c 44); [discriminate|]. destruct (split_comma r); discriminate.
+Qed.
+
+(* the pieces, joined by commas again, give back the flag value; no piece contains a comma *)
+Lemma join_split s : join_comma (split_comma s) = s.
+Proof.
+  induction s as [|c r IH]; [reflexivity|]. cbn [split_comma].
+  destruct (N.eqb_spec c 44) as [->|Hne].
+  - pose proof (split_comma_nonnil r) as Hn. destruct (split_comma r) as [|p ps] eqn:E; [contradiction|].
+    cbn [join_comma app]. rewrite <- IH. reflexivity.
+  - pose proof (split_comma_nonnil r) as Hn. destruct (split_comma r) as [|p ps] eqn:E; [contradiction|].
+    rewrite <- IH. destruct ps; reflexivity.
+Qed.
+
+Lemma split_no_comma s : forall p, In p (split_comma s) -> ~ In 44%N p.
+Proof.
+  induction s as [|c r IH]; cbn [split_comma]; intros p Hp.
+  - destruct Hp as [<-|[]]. intros [].
+  - destruct (N.eqb_spec c 44) as [->|Hne].
+    + destruct Hp as [<-|Hp]; [intros [] | apply IH, Hp].
+    + destruct (split_comma r) as [|q qs] eqn:E.
+      * destruct Hp as [<-|[]]. intros [H|[]]. congruence.
+      * destruct Hp as [<-|Hp].
+        -- intros [H|H]; [congruence|]. apply (IH q (or_introl eq_refl)), H.
+        -- apply IH. right. exact Hp.
+Qed.
+
+Lemma trim_left_spec s :
+  exists pre, s = pre ++ trim_left s /\ Forall (fun c => is_space c = true) pre
+              /\ (forall c r, trim_left s = c :: r -> is_space c = false).
+Proof.
+  induction s as [|c r IH]; cbn [trim_left].
+  - exists []. repeat split; [constructor | intros c r H; discriminate].
+  - destruct (is_space c) eqn:E.
+    + destruct IH as [pre [H1 [H2 H3]]]. exists (c :: pre). split; [cbn; congruence|].
+      split; [constructor; assumption | exact H3].
+    + exists []. split; [reflexivity|]. split; [constructor|]. intros c' r' H. inversion H; subst. exact E.
+Qed.
+
+(* strings.TrimSpace (ASCII white space): the piece is  spaces ++ trimmed ++ spaces  and the
+   trimmed part neither starts nor ends with white space *)
+Lemma trim_spec s :
+  exists pre post, s = pre ++ trim s ++ post
+    /\ Forall (fun c => is_space c = true) pre /\ Forall (fun c => is_space c = true) post
+    /\ (forall c r, trim s = c :: r -> is_space c = false)
+    /\ (forall c r, trim s = r ++ [c] -> is_space c = false).
+Proof.
+  unfold trim. destruct (trim_left_spec s) as [pre [H1 [H2 H3]]].
+  destruct (trim_left_spec (rev (trim_left s))) as [post' [K1 [K2 K3]]].
+  set (m := trim_left (rev (trim_left s))) in *.
+  assert (Hs : trim_left s = rev m ++ rev post').
+  { rewrite <- rev_app_distr, <- K1, rev_involutive. reflexivity. }
+  exists pre, (rev post'). split; [rewrite H1 at 1; rewrite Hs; reflexivity|].
+  split; [exact H2|]. split; [apply Forall_rev, K2|]. split.
+  - intros c r Hc. apply (H3 c (r ++ rev post')). rewrite Hs, Hc. reflexivity.
+  - intros c r Hc. apply (K3 c (rev r)).
+    rewrite <- (rev_involutive m), Hc, rev_app_distr. reflexivity.
+Qed.
+
+Lemma split_tag_list_spec s :
+  length (split_tag_list s) = length (split_comma s)
+  /\ join_comma (split_comma s) = s
+  /\ forall t, In t (split_tag_list s) -> exists p, In p (split_comma s) /\ t = trim p /\ ~ In 44%N t.
+Proof.
+  unfold split_tag_list. split; [apply map_length|]. split; [apply join_split|].
+  intros t Ht. apply in_map_iff in Ht as [p [<- Hp]]. exists p. split; [exact Hp|]. split; [reflexivity|].
+  intros Hc. apply (split_no_comma s p Hp).
+  destruct (trim_spec p) as [pre [post [E _]]]. rewrite E. apply in_or_app; right. apply in_or_app; left. exact Hc.
+Qed.
+
 (* ------------------------------------------------------------------ changeTags / runTag *)
 Lemma change_tags_set tags setL addT remT : setL <> [] ->
   change_tags tags (set_arg setL) addT remT = (flatten setL, true).
@@ -574,6 +655,7 @@ Example c25_nonvacuous :
   /\ run_tag [mkSnap 1 [a; a] None 1; mkSnap 2 [b] (Some 7%N) 2] [true; true] [[[]]] [] []
      = Done [Replaced [] (Some 1%N); Replaced [] (Some 7%N)]
   /\ run_tag [mkSnap 1 [a] None 1] [true] [[a; a]; [b]] [] [] = Done [Replaced [a; a; b] (Some 1%N)]
+  /\ parse_flags [str " a , b b,,c "; str ""] = [[a; str "b b"; []; c]; [[]]]
   /\ run_tag [] [] [[a]] [[b]] [] = EConflict
   /\ run_tag [] [] [] [] [] = ENothing.
 Proof. vm_compute. repeat split. Qed.
